@@ -38,6 +38,32 @@ Lemma take_while_map {A B} (f : A -> B) (p : B -> bool) l :
   take_while p (map f l) = map f (take_while (fun x => p (f x)) l).
 Proof. induction l as [|x l IH]; cbn; [reflexivity|]. destruct (p (f x)); cbn; [now rewrite IH|reflexivity]. Qed.
 
+(* ---------------------------------------------------------------- int64 round trip *)
+Lemma be_dec_enc_mod n : forall v acc, be_dec (be_enc n v) acc = acc * 256 ^ Z.of_nat n + v mod 256 ^ Z.of_nat n.
+Proof.
+  induction n as [|n IH]; intros v acc.
+  - cbn. rewrite Z.mod_1_r. lia.
+  - cbn [be_enc]. rewrite be_dec_app. cbn [be_dec]. rewrite IH.
+    rewrite Nat2Z.inj_succ, Z.pow_succ_r by lia.
+    rewrite (Z.rem_mul_r v 256 (256 ^ Z.of_nat n)) by lia. lia.
+Qed.
+Ltac pows := change (2 ^ (64 - 1)) with 9223372036854775808 in *; change (2 ^ 64) with 18446744073709551616 in *; change (2 ^ 63) with 9223372036854775808 in *.
+Lemma wrap_s_range v : - 2 ^ 63 <= wrap_s 64 v < 2 ^ 63.
+Proof.
+  unfold wrap_s, to_signed. pows. pose proof (Z.mod_pos_bound v 18446744073709551616 ltac:(lia)) as H.
+  destruct (v mod 18446744073709551616 <? 9223372036854775808) eqn:E; [apply Z.ltb_lt in E|apply Z.ltb_ge in E]; lia.
+Qed.
+Lemma i64_enc v : - 2 ^ 63 <= v < 2 ^ 63 -> i64 (be_enc 8 v) = v.
+Proof.
+  intros H. unfold i64, be_u. rewrite be_dec_enc_mod. cbn [Z.of_nat Pos.of_succ_nat Pos.succ]. 
+  change (256 ^ 8) with 18446744073709551616. unfold to_signed. pows.
+  destruct (Z_lt_dec v 0) as [Hn|Hp].
+  - replace (v mod 18446744073709551616) with (v + 18446744073709551616) by (apply Z.mod_unique with (q := -1); lia).
+    destruct (0 * 18446744073709551616 + (v + 18446744073709551616) <? 9223372036854775808) eqn:E; [apply Z.ltb_lt in E; lia|lia].
+  - rewrite Z.mod_small by lia.
+    destruct (0 * 18446744073709551616 + v <? 9223372036854775808) eqn:E; [lia|apply Z.ltb_ge in E; lia].
+Qed.
+
 (* ---------------------------------------------------------------- scan_record *)
 (* a record that re-scans to itself in front of any continuation *)
 Definition good (r : rec) : Prop :=
@@ -195,11 +221,12 @@ Theorem truncate_spec b T keep done :
     let kept := take_while (keep_p first T) rs in
     match keep with
     | None => kept = []
-    | Some b' => kept <> [] /\ batch_view b' = Some (base, first, kept) /\ (b' = b \/ valid_fields b' kept)
+    | Some b' => kept <> [] /\ batch_view b' = Some (base, first, kept) /\ (b' = b \/ valid_fields b' kept) /\
+                 hdr_consistent b'
     end /\
     (done = false <-> kept = rs).
 Proof.
-  intros [Hlen Hc]. destruct (batch_view b) as [[[base first] rs]|] eqn:V; [|contradiction].
+  intros Hcons. pose proof Hcons as [Hlen Hc]. destruct (batch_view b) as [[[base first] rs]|] eqn:V; [|contradiction].
   destruct Hc as (Hne & Hsz & Hfirst & Hmax & Hattr & Hlod).
   intros H. exists base, first, rs. split; [reflexivity|]. cbn zeta.
   pose proof V as V0.
@@ -221,7 +248,7 @@ Proof.
     apply Z.leb_le in Emax. apply max_ts_le in Emax as [_ Hall].
     unfold new_batch in H. assert ((b_lod b <? 0) = false) as Hl0 by (apply Z.ltb_ge; lia). rewrite Hl0 in H.
     injection H as <- <-. assert (kept = rs) as Hk by (apply take_while_all; exact Hall).
-    rewrite Hk. repeat split; auto. }
+    rewrite Hk. split; [|tauto]; split; [assumption|]; split; [assumption|]; split; [now left|exact Hcons]. }
   apply Z.leb_gt in Emax.
   destruct (T <? first) eqn:Efirst.
   { apply Z.ltb_lt in Efirst. injection H as <- <-.
@@ -257,30 +284,44 @@ Proof.
   { unfold hdr_wf, h2. cbn [h_base h_len h_ple h_crc h_attr h_lod h_first h_max h_mid h_cnt].
     rewrite !be_enc_length. repeat split; assumption. }
   destruct (render_facts h2 data' W) as (R1 & R2 & R3).
-  unfold new_batch in H. destruct (b_lod (render h2 data') <? 0); [discriminate|].
+  unfold new_batch in H. destruct (b_lod (render h2 data') <? 0) eqn:Elod; [discriminate|]. apply Z.ltb_ge in Elod.
   injection H as <- <-.
   assert (Forall good kept) as Gk by (apply take_while_forall; exact G).
   pose proof (take_while_len (keep_p first T) rs) as Hle. fold kept in Hle.
   pose proof (zlen_nonneg kept) as Hk0.
   split; [|split; [discriminate|intros E; rewrite E in Eall; lia]].
   split; [intros E; rewrite E in E0; cbn in E0; lia|].
-  split.
-  - unfold batch_view. assert ((zlen (render h2 data') <? 61) = false) as -> by (apply Z.ltb_ge; pose proof (zlen_nonneg data'); lia).
+  assert (batch_view (render h2 data') = Some (base, first, kept)) as Vb'.
+  { unfold batch_view. assert ((zlen (render h2 data') <? 61) = false) as -> by (apply Z.ltb_ge; pose proof (zlen_nonneg data'); lia).
     rewrite R1. unfold h2 at 1. cbn [h_cnt]. rewrite i32_enc by lia.
     pose proof (parse_concat kept Gk (S (length data')) []) as PC. rewrite app_nil_r in PC. fold data' in PC.
     rewrite PC by (pose proof (concat_len_ge kept Gk); fold data' in H; lia).
-    unfold h2. cbn [h_base h_first]. now rewrite Eb, Ef.
-  - right. unfold valid_fields.
-    assert (fst (split_header (render h2 data')) = h2) as F by (now rewrite R1).
-    unfold split_header in F. cbn [fst] in F.
-    pose proof (f_equal h_len F) as F1. pose proof (f_equal h_crc F) as F3.
-    pose proof (f_equal h_lod F) as F5. pose proof (f_equal h_cnt F) as F9.
-    cbn [h_len h_crc h_lod h_cnt] in F1, F3, F5, F9.
-    repeat split.
+    unfold h2. cbn [h_base h_first]. now rewrite Eb, Ef. }
+  assert (fst (split_header (render h2 data')) = h2) as F by (now rewrite R1).
+  unfold split_header in F. cbn [fst] in F.
+  pose proof (f_equal h_len F) as F1. pose proof (f_equal h_crc F) as F3. pose proof (f_equal h_attr F) as F4.
+  pose proof (f_equal h_lod F) as F5. pose proof (f_equal h_max F) as F7. pose proof (f_equal h_cnt F) as F9.
+  cbn [h_len h_crc h_attr h_lod h_max h_cnt] in F1, F3, F4, F5, F7, F9.
+  split; [exact Vb'|]. split.
+  - right. unfold valid_fields. repeat split.
     + rewrite F1, R3. unfold h2. cbn [h_len]. reflexivity.
     + rewrite F3, R2. unfold h2. cbn [h_crc]. reflexivity.
     + rewrite F5. reflexivity.
     + rewrite F9. reflexivity.
+  - (* the output satisfies the guard again *)
+    unfold hdr_consistent. split; [pose proof (zlen_nonneg data'); lia|]. rewrite Vb'.
+    assert (- 2 ^ 63 <= first < 2 ^ 63) as Rf by (rewrite <- Hfirst; apply wrap_s_range).
+    assert (forall l m, - 2 ^ 63 <= m < 2 ^ 63 -> - 2 ^ 63 <= max_ts first m l < 2 ^ 63) as Rm.
+    { induction l as [|r l IHl]; intros m Hm; cbn [max_ts]; [exact Hm|]. apply IHl.
+      destruct (m <? rec_ts first r); [apply wrap_s_range|exact Hm]. }
+    repeat split.
+    + intros E; rewrite E in E0; cbn in E0; lia.
+    + lia.
+    + destruct rs as [|r0 rs']; [contradiction|]. cbn [hd] in Hfirst. subst kept. cbn [take_while] in *.
+      destruct (keep_p first T r0); [exact Hfirst|cbn in E0; lia].
+    + rewrite F7. unfold h2. cbn [h_max]. apply i64_enc, Rm, Rf.
+    + rewrite F4. unfold h2. cbn [h_attr]. exact Hattr.
+    + exact Elod.
 Qed.
 
 End Batch.
@@ -310,7 +351,8 @@ Definition frame_ok (b : bytes) : Prop := be_u (slice 8 4 b) = zlen b - 12 /\ hd
 
 (* an output batch is a source batch, or a rewritten one with consistent fields *)
 Definition out_ok (bs : list bytes) (b' : bytes) : Prop :=
-  In b' bs \/ exists base first rs', batch_view b' = Some (base, first, rs') /\ valid_fields crc b' rs'.
+  (In b' bs \/ exists base first rs', batch_view b' = Some (base, first, rs') /\ valid_fields crc b' rs') /\
+  hdr_consistent b'.
 
 Lemma recs_view b base first rs : batch_view b = Some (base, first, rs) -> recs_of b = map (rview base first) rs.
 Proof. intros V. unfold recs_of, batch_records. now rewrite V. Qed.
@@ -346,9 +388,9 @@ Proof.
     assert (out_pre : forall pre, match keep with Some b' => [b'] | None => [] end = pre ->
               concat (map recs_of pre) = map (rview base first) kept /\ Forall (out_ok (b :: bs)) pre).
     { intros pre <-. destruct keep as [b'|].
-      - destruct Hkeep as (Hk1 & Vb' & Hval). cbn [map concat]. rewrite (recs_view _ _ _ _ Vb'), app_nil_r.
+      - destruct Hkeep as (Hk1 & Vb' & Hval & Hcb'). cbn [map concat]. rewrite (recs_view _ _ _ _ Vb'), app_nil_r.
         split; [reflexivity|]. constructor; [|constructor].
-        destruct Hval as [->|Hval]; [left; now left|right; eauto].
+        split; [|exact Hcb']. destruct Hval as [->|Hval]; [left; now left|right; eauto].
       - rewrite Hkeep. split; [reflexivity|constructor]. }
     destruct done.
     + injection H as <-. destruct (out_pre _ eq_refl) as [O1 O2]. split; [|exact O2].
@@ -360,7 +402,7 @@ Proof.
       destruct Hdone as [Hd _]. specialize (Hd eq_refl).
       rewrite (proj2 Hall Hd). rewrite map_app, concat_app, O1, I1, Hd. split; [reflexivity|].
       apply Forall_app. split; [exact O2|].
-      eapply Forall_impl; [|exact I2]. intros x [Hin|Hx]; [left; now right|right; exact Hx].
+      eapply Forall_impl; [|exact I2]. intros x [[Hin|Hx] Hcx]; (split; [|exact Hcx]); [left; now right|right; exact Hx].
 Qed.
 
 End Segment.
